@@ -1,7 +1,7 @@
 #!/bin/bash
-# lib/seedintake.sh ID  — store /tmp/seed-ID-out/{1,2} under seeded/, drop the scratch worktree, run the check against each patch
-cd /verif; id=$1
-for n in 1 2; do [ -f /tmp/seed-$id-out/$n/patch.diff ] || continue; mkdir -p seeded/$id-$n; cp /tmp/seed-$id-out/$n/patch.diff /tmp/seed-$id-out/$n/demo*_test.go /tmp/seed-$id-out/$n/README.md seeded/$id-$n/ 2>/dev/null; done
+# lib/seedintake.sh ID [OFFSET] — store /tmp/seed-ID-out/{1,2} under seeded/ID-(n+OFFSET), drop the scratch worktree, run the check against each new patch
+cd /verif; id=$1; off=${2:-0}; new=""
+for n in 1 2; do [ -f /tmp/seed-$id-out/$n/patch.diff ] || continue; m=$((n+off)); mkdir -p seeded/$id-$m; cp /tmp/seed-$id-out/$n/patch.diff /tmp/seed-$id-out/$n/demo*_test.go /tmp/seed-$id-out/$n/README.md seeded/$id-$m/ 2>/dev/null; new="$new $m"; done
 git -C /repo worktree remove --force /tmp/seed-$id >/dev/null 2>&1; rm -rf /tmp/seed-$id /tmp/seed-$id-out /tmp/seed-$id-tmp /tmp/seed-$id-*.log; git -C /repo worktree prune
-for n in 1 2; do [ -d seeded/$id-$n ] && lib/seedtest.sh $id seeded/$id-$n/patch.diff > work/seedlogs/final/$id-$n.log 2>&1; done
-for n in 1 2; do [ -f work/seedlogs/final/$id-$n.log ] && echo "$id-$n: $(grep -v '^\[\|^KNOWN' work/seedlogs/final/$id-$n.log | grep -E 'VIOLATION|^OK|MACHINERY|rc=|does not apply' | tail -2 | cut -c1-100 | tr '\n' ' ')"; done
+for m in $new; do lib/seedtest.sh $id seeded/$id-$m/patch.diff > work/seedlogs/final/$id-$m.log 2>&1; done
+for m in $new; do echo "$id-$m: $(grep -v '^\[\|^KNOWN' work/seedlogs/final/$id-$m.log | grep -E 'VIOLATION|^OK|MACHINERY|rc=|does not apply' | tail -2 | cut -c1-100 | tr '\n' ' ')"; done
